@@ -127,6 +127,17 @@ type Scenario struct {
 	ShareBase        bool       `json:"share_base,omitempty"`         // struct nodes with the same budget embed ONE shared *BaseNode (shared configuration, distinct nodes)
 	MaxCallbacks     int        `json:"max_callbacks,omitempty"`      // runaway bound override for long-cycle scenarios
 	StrayFlowRetries int        `json:"stray_flow_retries,omitempty"` // > 0: an unrelated flow object gets retries configured on its BaseNode before the run: must not affect this hierarchy
+	MidConnect       []MidConn  `json:"mid_connect,omitempty"`        // Connect calls made from inside a callback while the flow is running
+}
+
+// MidConn is a Connect call made on flow node Flow from inside the Phase callback (prep | exec (first attempt) | post)
+// of visit Visit of node Node: the connection exists from that moment on, for this and every later run.
+type MidConn struct {
+	Node  int    `json:"node"`
+	Visit int    `json:"visit"`
+	Phase string `json:"phase"`
+	Flow  int    `json:"flow"`
+	Conn  Conn   `json:"conn"`
 }
 
 // Rewire is a Connect call made on flow node Flow after run number AfterRun (0-based) has finished.
@@ -307,6 +318,22 @@ func (x *Exec) enter() (ordinal int) {
 	return
 }
 
+// midConnect performs the Connect calls scheduled for this callback.
+func (x *Exec) midConnect(node, visit int, phase string) {
+	for _, mc := range x.Sc.MidConnect {
+		if mc.Node != node || mc.Visit != visit || mc.Phase != phase {
+			continue
+		}
+		if f, ok := x.nodes[mc.Flow].(*flyt.Flow); ok {
+			var to flyt.Node
+			if mc.Conn.To >= 0 {
+				to = x.build(mc.Conn.To)
+			}
+			f.Connect(x.build(mc.Conn.From), flyt.Action(mc.Conn.Action), to)
+		}
+	}
+}
+
 func (x *Exec) mkErr(kind int, id string) error {
 	var sentinel, ret error
 	switch kind {
@@ -429,6 +456,9 @@ func (c *core) prep(ctx context.Context, shared *flyt.SharedStore) (any, error) 
 		c.x.record(Event{Node: c.id, Visit: v, Phase: "anomaly", Note: "ctx: " + msg})
 	}
 	seq := c.x.record(e)
+	if len(c.x.Sc.MidConnect) > 0 {
+		c.x.midConnect(c.id, v, "prep")
+	}
 	s := c.script()
 	if s.PrepErr {
 		c.curPrep = nil
@@ -448,6 +478,9 @@ func (c *core) exec(ctx context.Context, prepRes any) (any, error) {
 		e.Note = "exec got " + zoo.Describe(prepRes) + " want " + zoo.Describe(c.curPrep)
 	}
 	seq := c.x.record(e)
+	if len(c.x.Sc.MidConnect) > 0 && c.attempt == 1 {
+		c.x.midConnect(c.id, v, "exec")
+	}
 	s := c.script()
 	if c.attempt >= s.FirstOK {
 		c.produced = c.mkPayload("exec", c.attempt)
@@ -501,9 +534,16 @@ func (c *core) post(ctx context.Context, shared *flyt.SharedStore, prepRes, exec
 		l = append(append([]string(nil), l...), fmt.Sprint(c.id))
 		shared.Set("log", l)
 	}
+	if len(c.x.Sc.MidConnect) > 0 {
+		c.x.midConnect(c.id, v, "post")
+	}
 	s := c.script()
 	if s.PostErr {
 		c.x.setRet(seq, errID(c.id, v, "post", 0))
+		if v%2 == 0 {
+			// the action a failing post returns next to its error is meaningless — also when it names a connected pair
+			return flyt.Action(s.Post), c.x.mkErr(c.spec.ErrKind, errID(c.id, v, "post", 0))
+		}
 		return flyt.Action("ignored-action"), c.x.mkErr(c.spec.ErrKind, errID(c.id, v, "post", 0))
 	}
 	return flyt.Action(s.Post), nil
@@ -538,9 +578,15 @@ func (c *core) batchPost(ctx context.Context, shared *flyt.SharedStore, items, r
 		l = append(append([]string(nil), l...), fmt.Sprint(c.id))
 		shared.Set("log", l)
 	}
+	if len(c.x.Sc.MidConnect) > 0 {
+		c.x.midConnect(c.id, vis, "post")
+	}
 	s := c.script()
 	if s.PostErr {
 		c.x.setRet(seq, errID(c.id, vis, "post", 0))
+		if vis%2 == 0 {
+			return flyt.Action(s.Post), c.x.mkErr(c.spec.ErrKind, errID(c.id, vis, "post", 0))
+		}
 		return flyt.Action("ignored-action"), c.x.mkErr(c.spec.ErrKind, errID(c.id, vis, "post", 0))
 	}
 	return flyt.Action(s.Post), nil
